@@ -124,7 +124,7 @@ Section StepLaw.
   Variable E : env.
   Hypothesis Hwf : wf E = true.
   Notation hs := (e_handlers E).
-  Notation nv_of v w := (if e_store_original E then v else w).
+  Notation nv_of v w := (new_value E v w).
 
   Lemma chk_true k : chk k true = []. Proof. reflexivity. Qed.
 
@@ -178,10 +178,10 @@ Section StepLaw.
 
   Lemma step_slot s o : o_slot (snd (step E s o)) = fst (step E s o).
   Proof.
-    unfold step. destruct o as [v| |].
+    unfold step. cbv zeta. destruct o as [v| |].
     - destruct (e_validate E v) as [w|]; [|reflexivity]. destruct (e_kind E) as [m|].
-      + destruct (is_nil hs); [reflexivity|]. destruct (match m with MNone => true | _ => negb (readable E s =? w) end);
-          [destruct (notify E (OVal (readable E s)) (nv_of v w))|]; reflexivity.
+      + destruct (is_nil hs); [reflexivity|]. destruct (notify E (OVal (readable E s)) (nv_of v w)).
+        destruct m; [|destruct (readable E s =? nv_of v w)..]; reflexivity.
       + destruct (notify E OUndefined w). reflexivity.
     - destruct (e_kind E); [|reflexivity]. destruct s; [reflexivity|]. destruct (notify E OUninitialized (e_default E)). reflexivity.
     - destruct (e_kind E) as [m|]; [|reflexivity]. destruct s as [old|]; [|reflexivity].
@@ -205,7 +205,7 @@ Section StepLaw.
     unfold step, law_step. destruct o as [v| |].
     - (* Assign *)
       destruct (e_validate E v) as [w0|]; [|reflexivity].
-      destruct (e_kind E) as [m|] eqn:K; [set (w := if e_store_original E then v else w0); cbv beta iota|rename w0 into w].
+      destruct (e_kind E) as [m|] eqn:K; [set (w := new_value E v w0); cbv beta iota|rename w0 into w].
       + (* normal trait *)
         destruct (is_nil hs) eqn:Hnil.
         * (* no notifier at all *)
@@ -316,8 +316,9 @@ Section Spec.
             match e_kind E with
             | TEvent => (h_id h, OUndefined, w) :: spec_calls h s r
             | TNormal _ =>
-                (if counts_as_change h (readable E s) w then [(h_id h, OVal (readable E s), w)] else [])
-                ++ spec_calls h (Some w) r
+                let nv := new_value E v w in        (* the object the trait stores *)
+                (if counts_as_change h (readable E s) nv then [(h_id h, OVal (readable E s), nv)] else [])
+                ++ spec_calls h (Some nv) r
             end
         end
     end.
@@ -357,19 +358,20 @@ Section Spec.
     calls_of (h_id h) (o_calls (snd (step E s (Assign v))))
     = match e_kind E with
       | TEvent => [(h_id h, OUndefined, w)]
-      | TNormal _ => if counts_as_change h (readable E s) w then [(h_id h, OVal (readable E s), w)] else []
+      | TNormal _ => if counts_as_change h (readable E s) (new_value E v w)
+                     then [(h_id h, OVal (readable E s), new_value E v w)] else []
       end
-    /\ fst (step E s (Assign v)) = match e_kind E with TEvent => s | TNormal _ => Some w end.
+    /\ fst (step E s (Assign v)) = match e_kind E with TEvent => s | TNormal _ => Some (new_value E v w) end.
   Proof.
-    intros Hin Hv. unfold step. rewrite Hv. destruct (e_kind E) as [m|] eqn:K.
+    intros Hin Hv. unfold step. cbv zeta. rewrite Hv. destruct (e_kind E) as [m|] eqn:K.
     - destruct (is_nil hs) eqn:Hnil; [destruct hs; [destruct Hin|discriminate]|].
-      set (old := readable E s).
-      destruct (match m with MNone => true | _ => negb (old =? w) end) eqn:Ch.
-      + pose proof (notify_calls_of E (OVal old) w h Hwf Hin) as N.
-        destruct (notify E (OVal old) w) as [cs sk]. cbn [fst snd o_calls] in *. rewrite N. split; [|reflexivity].
-        rewrite <- (accepted_counts h old w m K), Ch. reflexivity.
+      set (old := readable E s). set (nv := new_value E v w).
+      destruct (match m with MNone => true | _ => negb (old =? nv) end) eqn:Ch.
+      + pose proof (notify_calls_of E (OVal old) nv h Hwf Hin) as N.
+        destruct (notify E (OVal old) nv) as [cs sk]. cbn [fst snd o_calls] in *. rewrite N. split; [|reflexivity].
+        rewrite <- (accepted_counts h old nv m K), Ch. reflexivity.
       + cbn [fst snd o_calls]. split; [|reflexivity].
-        rewrite <- (accepted_counts h old w m K), Ch. reflexivity.
+        rewrite <- (accepted_counts h old nv m K), Ch. reflexivity.
     - pose proof (notify_calls_of E OUndefined w h Hwf Hin) as N.
       destruct (notify E OUndefined w) as [cs sk]. cbn [fst snd o_calls] in *. rewrite N. split; reflexivity.
   Qed.
@@ -416,7 +418,7 @@ Section Spec.
        match e_kind E with
        | TEvent => snd (fst c) = OUndefined /\ snd c = w
        | TNormal _ => snd (fst c) = OVal (readable E s) /\ readable E (fst (step E s o)) = snd c
-                      /\ snd c = (if e_store_original E then v else w)
+                      /\ snd c = new_value E v w
        end)
     \/ (o = Delete /\ snd (fst c) = OVal (readable E s) /\ snd c = e_default E
         /\ readable E (fst (step E s o)) = e_default E).
@@ -424,8 +426,8 @@ Section Spec.
     destruct o as [v| |].
     - unfold step. destruct (e_validate E v) as [w|] eqn:Hv; [|intros []].
       destruct (e_kind E) as [m|].
-      + destruct (is_nil hs); [intros []|]. set (nv := if e_store_original E then v else w).
-        destruct (match m with MNone => true | _ => negb (readable E s =? w) end).
+      + destruct (is_nil hs); [intros []|]. set (nv := new_value E v w).
+        destruct (match m with MNone => true | _ => negb (readable E s =? nv) end).
         * pose proof (notify_truthful E (OVal (readable E s)) nv c) as T.
           destruct (notify E (OVal (readable E s)) nv) as [cs sk]. cbn [fst snd o_calls] in *. intros Hc.
           destruct (T Hc) as [T1 T2]. left. exists v, w. repeat split; try assumption. rewrite T2. reflexivity.
@@ -461,7 +463,7 @@ Section Spec.
         try (specialize (H1 eq_refl); discriminate); try (specialize (H2 eq_refl); discriminate). }
     induction ops as [|o r IH]; intros s; [reflexivity|]. destruct o as [v| |]; cbn [spec_calls]; [|apply IH|].
     - destruct (e_validate E v) as [w|]; [|apply IH]. destruct (e_kind E) as [m|] eqn:K.
-      + rewrite !map_app, IH, Hcc. destruct (counts_as_change h2 (readable E s) w); reflexivity.
+      + cbv zeta. rewrite !map_app, IH, Hcc. destruct (counts_as_change h2 (readable E s) (new_value E v w)); reflexivity.
       + cbn [map]. rewrite IH. reflexivity.
     - destruct (e_kind E) as [m|]; [|apply IH]. destruct s as [old|]; [|apply IH].
       rewrite !map_app, IH, Hcc. destruct (counts_as_change h2 old (e_default E)); reflexivity.
@@ -478,8 +480,8 @@ Section Spec.
   Proof.
     destruct o as [v| |].
     - unfold step. destruct (e_validate E v) as [w|]; [|reflexivity]. destruct (e_kind E) as [m|].
-      + destruct (is_nil hs); [reflexivity|]. destruct (match m with MNone => true | _ => negb (readable E s =? w) end); [|reflexivity].
-        set (nv := if e_store_original E then v else w).
+      + destruct (is_nil hs); [reflexivity|]. set (nv := new_value E v w).
+        destruct (match m with MNone => true | _ => negb (readable E s =? nv) end); [|reflexivity].
         pose proof (notify_sink E (OVal (readable E s)) nv Hwf) as N. destruct (notify E (OVal (readable E s)) nv). exact N.
       + pose proof (notify_sink E OUndefined w Hwf) as N. destruct (notify E OUndefined w). exact N.
     - destruct (step_read_silent s) as [C S]. rewrite C, S. reflexivity.
@@ -521,8 +523,9 @@ Section Transparent.
       + assert (is_nil (e_handlers (set_raises fr E)) = is_nil (e_handlers E)) as -> by (cbn; destruct (e_handlers E); reflexivity).
         destruct (is_nil (e_handlers E)); [split; reflexivity|].
         change (readable (set_raises fr E) s) with (readable E s).
-        destruct (match m with MNone => true | _ => negb (readable E s =? w) end); [|split; reflexivity].
-        set (nv := if e_store_original E then v else w).
+        change (new_value (set_raises fr E) v w) with (new_value E v w).
+        set (nv := new_value E v w).
+        destruct (match m with MNone => true | _ => negb (readable E s =? nv) end); [|split; reflexivity].
         pose proof (notify_calls_set_raises fr (OVal (readable E s)) nv) as N.
         destruct (notify (set_raises fr E) (OVal (readable E s)) nv), (notify E (OVal (readable E s)) nv).
         cbn in N. subst. split; reflexivity.
